@@ -51,9 +51,22 @@ def check(ctx, rep):
                 t = f.blocks[bb]['t']
                 if t['k'] == 'call' and t['d']['l'] == 0 and bb != cb:
                     depends = False
+        # ... and on nothing else: every other value that can influence the result is a violation
+        extra = []
+        for bb, t in f.calls():
+            if bb in settle or bb in [empt.get(x) for x in ('effects', 'events', 'tasks')]:
+                continue
+            if call_matches(t, ['core::ops::deref::Deref::deref', 'core::ops::deref::DerefMut::deref_mut']):
+                continue
+            sinks = flows_to(f, t['d']['l'])
+            if t['d']['l'] == 0 or any(s_[0] in ('return', 'switch') for s_ in sinks):
+                extra.append(norm(t.get('callee') or '?') + ' on ' + ','.join(sorted(c01.field_of_receiver(f, t['args'][0]))) if t['args'] else norm(t.get('callee') or '?'))
+        if extra:
+            depends = False
         ok = len(settle) == 1 and all(f.dominates(settle[0], b) and settle[0] != b for b in empt.values()) and set(empt) >= {'effects', 'events', 'tasks'} and depends
         rep.expect('R07.a', ok, 'is_done', 'run_until_settled() then effects.is_empty() && events.is_empty() && tasks.is_empty()',
-                   'Command::is_done no longer settles first and consults all of effects, events and tasks (found %s)' % sorted(empt))
+                   'Command::is_done no longer settles first and decides on exactly effects, events and tasks (found %s%s)' % (
+                       sorted(empt), '; also decided by ' + ', '.join(extra) if extra else ''))
     # R07.b
     removers = []
     for g in core.built:
@@ -182,13 +195,118 @@ def check(ctx, rep):
     same = bool(counts) and bool(wloads) and any(o.kind == 'call' and call_matches(o.term, ['alloc::sync::Arc::new']) for o in origins(rt, counts[0][1]['args'][0]))
     rep.expect('R07.c', same, 'count-on-poll-waker', 'strong_count is taken on the Arc<CommandWaker> created for this poll',
                'the waker count in Command::run_task is not taken on the waker created for this poll')
+    check_stream_end(rep, 'R07.e', core)
     # R07.d: the premise of the eviction test for the futures crux itself provides
     from rules.props import c05
     rep.rule('R07.d', 'every future provided by crux that stays Pending holds a clone of the current poll\'s waker (or is deliberately unwakeable): '
-             'the eviction test counts clones of that waker', floor=7)
+             'the eviction test counts clones of that waker', floor=5)
     time = ctx.crate('default', 'crux_time')
     if time is None:
         rep.missing('R07.d', 'crux_time facts')
     else:
         c05.check_pending_wakers(rep, 'R07.d', core, time)
     rep.assume('NOT DECIDED: exactness of the waker-count heuristic for arbitrary user futures')
+
+
+def check_stream_end(rep, rid, core):
+    """<Command as Stream>::poll_next: the choice between Ready(None) (stream ended) and Pending depends only on the three stores
+    is_done consults (task slab, effect queue, event queue) — through is_done() itself or the same emptiness tests — and on nothing else"""
+    rep.rule(rid, 'Command::poll_next ends the stream exactly when is_done: the Ready(None)/Pending decision reads only tasks, effects and events', floor=2)
+    fs = [f for f in core.built if f.kind == 'AssocFn' and f.name == 'poll_next' and path_matches(f.assoc.get('trait'), 'futures_core::stream::Stream')
+          and path_matches(f.assoc.get('self_adt'), 'crux_core::command::Command')]
+    if len(fs) != 1:
+        rep.missing(rid, '<Command as Stream>::poll_next')
+        return
+    f = fs[0]
+    N = []
+    P = []
+    for bb, i, s_ in f.stmts('assign'):
+        rv = s_['rv']
+        if rv['k'] == 'agg' and rv.get('adt') == 'core::task::poll::Poll':
+            if rv['variant'] == 'Pending':
+                P.append(bb)
+            elif rv['variant'] == 'Ready' and any(o.kind == 'agg' and o.stmt['rv'].get('adt') == 'core::option::Option' and o.stmt['rv']['variant'] == 'None'
+                                                   for o in origins(f, rv['ops'][0])):
+                N.append(bb)
+    if not N or not P:
+        rep.bad(rid, 'shape', 'Command::poll_next: no Ready(None) / Pending pair found')
+        return
+    targets = set(N + P)
+    allowed_fields = {'tasks', 'effects', 'events'}
+    bad = []
+    n_dec = 0
+    for sb, st in f.terms('switch'):
+        outs = []
+        for s2 in f.succ(sb):
+            r = f.reachable([s2])
+            outs.append((bool(set(N) & r), bool(set(P) & r)))
+        if len(set(outs)) < 2:
+            continue  # does not influence the outcome
+        n_dec += 1
+        srcs = origins(f, st['a'])
+        for o in srcs:
+            ok = decider_ok(core, f, o, allowed_fields)
+            if not ok:
+                what = norm(o.term.get('callee')) + ' on ' + ','.join(sorted(c01.field_of_receiver(f, o.term['args'][0]))) if o.kind == 'call' and o.term['args'] else o.kind
+                bad.append((sb, what))
+    rep.expect(rid, n_dec >= 1, 'poll_next|decides', '%d switch(es) decide between stream end and Pending' % n_dec,
+               'Command::poll_next: nothing decides between Ready(None) and Pending')
+    rep.expect(rid, not bad, 'poll_next|end-iff-done', 'every deciding test reads is_done() or the emptiness of tasks / effects / events',
+               'Command::poll_next lets %s decide whether the stream has ended: the end of a hosted command no longer coincides with is_done '
+               '(e.g. an aborted command whose other queue is never drained stays Pending for ever)' % sorted(set(w for _, w in bad)))
+
+
+STORE_READS = ['crossbeam_channel::channel::Receiver::is_empty', 'slab::Slab::is_empty', 'crossbeam_channel::channel::Receiver::try_recv',
+               'crossbeam_channel::channel::Receiver::len', 'slab::Slab::len']
+
+
+def decider_ok(core, f, o, allowed_fields, depth=0):
+    """is this value computed only from is_done() / reads of the allowed stores, possibly through Result/Option combinators?"""
+    if depth > 6:
+        return False
+    if o.kind == 'call':
+        c = o.term
+        if call_matches(c, ['crux_core::command::Command::is_done']):
+            return True
+        if call_matches(c, STORE_READS):
+            fl = c01.field_of_receiver(f, c['args'][0])
+            fl = {x for x in fl if x not in ('self',)}
+            return bool(fl & allowed_fields) and not (fl - allowed_fields)
+        cn = norm(c.get('callee') or '')
+        if cn.startswith(('core::result::Result::', 'core::option::Option::')):
+            # a combinator: the receiver and every closure it is given must themselves only read the allowed stores
+            if not c['args']:
+                return False
+            recv = origins(f, c['args'][0])
+            if not recv or not all(decider_ok(core, f, x, allowed_fields, depth + 1) for x in recv):
+                return False
+            for a in c['args'][1:]:
+                for x in origins(f, a):
+                    if x.kind == 'agg' and x.stmt['rv'].get('ak') == 'closure':
+                        g = core.by_exact(x.stmt['rv']['def'])
+                        if g is None or not closure_reads_only(g, allowed_fields):
+                            return False
+                    elif x.kind == 'const' and x.fn:
+                        continue  # a constructor such as CommandOutput::Event
+                    else:
+                        return False
+            return True
+        return False
+    if o.kind == 'rvalue' and o.stmt['rv']['k'] == 'discr':
+        inner = origins(f, {'l': o.stmt['rv']['a']['l'], 'p': o.stmt['rv']['a'].get('p', [])})
+        return bool(inner) and all(decider_ok(core, f, x, allowed_fields, depth + 1) for x in inner)
+    return False
+
+
+def closure_reads_only(g, allowed_fields):
+    for bb, t in g.calls():
+        cn = norm(t.get('callee') or '')
+        if call_matches(t, STORE_READS):
+            fl = {x for x in c01.field_of_receiver(g, t['args'][0]) if x not in ('self',)}
+            if not (fl & allowed_fields) or (fl - allowed_fields):
+                return False
+        elif cn.startswith(('core::result::Result::', 'core::option::Option::', 'core::ops::deref::')):
+            continue
+        else:
+            return False
+    return True
